@@ -216,6 +216,8 @@ pub struct Params {
     /// builder scenarios: feed the transaction builder through its older per-item entry points
     /// (add_key_input, add_bootstrap_input, add_native_script_input, set_certs, set_withdrawals, set_mint)
     pub legacy_api: bool,
+    /// builder scenarios: set / remove every removable component before the real set-up
+    pub churn: bool,
 }
 
 impl Params {
@@ -235,6 +237,7 @@ impl Params {
             do_not_burn: false,
             change_kind: 0,
             legacy_api: false,
+            churn: false,
         }
     }
     pub fn config(&self) -> TransactionBuilderConfig {
